@@ -28,7 +28,8 @@ def generate(rng: random.Random, tier: str):
     cases = []
     for _ in range(500 if thorough else 70):
         cases.append({'kind': 'move', 'container': rng.choice(CONTAINERS), 'overload': rng.choice(OVERLOADS), 'dtype': rng.choice(list(DTYPES)),
-                      'copy': rng.random() < 0.5, 'alias': rng.choice(['none', 'none', 'pair', 'triple']), 'seed': rng.randrange(1 << 30)})
+                      'copy': rng.random() < 0.5, 'alias': rng.choice(['none', 'none', 'pair', 'triple', 'views']), 'src_double': rng.random() < 0.35,
+                      'seed': rng.randrange(1 << 30)})
     return cases
 
 
@@ -99,11 +100,28 @@ def run(case, drv) -> Outcome:
     rng = random.Random(case['seed'])
     torch.manual_seed(case['seed'])
     src = make_container(case['container'], rng)
-    cfg = f'{case["container"]}.{case["overload"]}({case["dtype"]}, copy={case["copy"]}) alias {case["alias"]}'
+    if case.get('src_double'):
+        st, src = call(lambda: src.double(copy=True))  # a double-precision source (float64 / complex128 fields and modules)
+        if st != 'ok':
+            return Outcome(key=('move-raises', case['container'], 'double'), viol={'signature': f'move:raises:{case["container"]}:double', 'what': f'double(copy=True) raises {src}'})
+    cfg = f'{case["container"]}{"(double precision)" if case.get("src_double") else ""}.{case["overload"]}({case["dtype"]}, copy={case["copy"]}) alias {case["alias"]}'
     # ---- aliasing pattern: make several plain-tensor fields of equal dtype/shape the very same object
     leaves = list(walk(src))
     plain = [(p, t) for p, t in leaves if not isinstance(t, torch.nn.Parameter)]
-    if case['alias'] != 'none' and len(plain) >= 2:
+    if case['alias'] == 'views' and len(plain) >= 2:
+        # two different fields that are views of one buffer starting at the same address, with different shapes
+        by_dtype = {}
+        for p, t in plain:
+            if t.numel() >= 1 and t.is_contiguous():
+                by_dtype.setdefault(t.dtype, []).append((p, t))
+        cands = [g for g in by_dtype.values() if len(g) >= 2 and len({tuple(t.shape) for _, t in g}) >= 2]
+        if cands:
+            g = sorted(rng.choice(cands), key=lambda pt: -pt[1].numel())
+            (pa, ta) = g[0]
+            (pb, tb) = next((p, t) for p, t in g[1:] if tuple(t.shape) != tuple(ta.shape))
+            view = ta.detach().reshape(-1)[: tb.numel()].reshape(tb.shape)
+            call(lambda: set_path(src, pb, view))
+    elif case['alias'] != 'none' and len(plain) >= 2:
         groups = {}
         for p, t in plain:
             groups.setdefault((t.dtype, tuple(t.shape)), []).append(p)
